@@ -3,7 +3,7 @@
 From Coq Require Import List ZArith Arith Bool.
 From PF Require Import Lib.ListX Lib.PySlice Model.Ragged Model.RaggedSpec.
 From PF Require Import Model.RaggedRun Model.RaggedCat Model.RaggedStore.
-From PF Require Import Proofs.MntProofs Proofs.MetProofs Proofs.RaggedEntryProofs Proofs.RaggedStoreSelect.
+From PF Require Import Proofs.MntProofs Proofs.MetProofs Proofs.RaggedEntryProofs Proofs.RaggedStoreSelect Proofs.RaggedStoreSelectMet Proofs.RaggedStoreProofs.
 Import ListNotations.
 
 Section C05.
@@ -227,6 +227,27 @@ Section C05.
     /\ (forall h0, n_buf h0 < length st -> n_read A st' h0 = n_read A st h0)
     /\ (st' = st \/ exists b, st' = st ++ [b]).
   Proof. exact (mnt_select_store_sound_proof A). Qed.
+
+  (* MultiEmbeddingTensor objects (values = a row / column window of a 2-D storage): a selection never writes -
+     every object that existed before reads the same, at most one storage is allocated. *)
+  Theorem met_select_store_frame : forall (st st' : list (list (list A))) (h r : hmet) (ix : index) (dim : nat),
+    e_select A st h ix dim = Some (st', r) ->
+    (forall h0, e_buf h0 < length st -> e_read A st' h0 = e_read A st h0)
+    /\ (st' = st \/ exists b, st' = st ++ [b]).
+  Proof. exact (met_select_store_frame_proof A). Qed.
+
+  (* MultiEmbeddingTensor: full store-level soundness.  For every index expression on either axis the returned
+     object - the same object, a ROW-window view (integer row / contiguous row slice), a COLUMN-window view
+     (integer column / contiguous column slice, window [c0 + offs[lo], c0 + offs[hi])) or a fresh storage -
+     reads back as exactly the pure selection result; nothing that existed changes; at most one allocation. *)
+  Theorem met_select_store_sound :
+    forall (st st' : list (list (list A))) (h r : hmet) (ws : list nat) (m : cellmat A) (ix : index) (dim : nat),
+    dim < 2 -> rect_w ws m -> e_read A st h = Some (met_of_cells ws m) ->
+    e_select A st h ix dim = Some (st', r) ->
+    e_read A st' r = select A _ (met_kernels A) (met_of_cells ws m) ix dim
+    /\ (forall h0, e_buf h0 < length st -> e_read A st' h0 = e_read A st h0)
+    /\ (st' = st \/ exists b, st' = st ++ [b]).
+  Proof. exact (met_select_store_sound_proof A). Qed.
 End C05.
 
 (* the dim argument as Python passes it: 0/-3 rows, 1/-2 columns, everything else
@@ -256,6 +277,8 @@ Print Assumptions narrow_whole.
 Print Assumptions mnt_narrow_nonpositive.
 Print Assumptions met_narrow_nonpositive.
 Print Assumptions mnt_select_store_sound.
+Print Assumptions met_select_store_frame.
+Print Assumptions met_select_store_sound.
 Print Assumptions normalize_dim_z_spec.
 
 (* ---------------------------------------------------------------------- *)
@@ -321,4 +344,16 @@ Example ex_store_select :
              /\ n_read nat st r = Some (mnt_of_cells 2 [[[];[4]]; [[5];[6]]])) /\
   (exists st' r, n_select nat st h (IInt 1%Z) 1 = Some (st', r) /\ st' = st ++ [[3; 4; 6]] /\ n_buf r = 1
              /\ n_read nat st' h = n_read nat st h).
+Proof. vm_compute. split; [eexists; repeat split | eexists; eexists; repeat split]. Qed.
+
+(* store level, embedding container: a column slice of an object that is itself a window of a larger 2-D storage is a
+   view of the same storage and reads back as the pure selection; a list selection allocates *)
+Example ex_store_select_met :
+  let st := [[[9; 1; 2; 3; 9]; [9; 4; 5; 6; 9]; [9; 7; 8; 0; 9]]] in
+  let h := MkHmet 2 2 [0; 2; 3] 0 1 1 3 in     (* rows 1..2, storage columns 1..3: cells [[4;5];[6]] [[7;8];[0]] *)
+  (exists r, e_select nat st h (ISlice (Some 1%Z) None None) 1 = Some (st, r)
+             /\ e_buf r = 0 /\ e_c0 r = 3 /\ e_w r = 1
+             /\ e_read nat st r = Some (met_of_cells [1] [[[6]]; [[0]]])) /\
+  (exists st' r, e_select nat st h (IList [1%Z; 0%Z]) 0 = Some (st', r) /\ e_buf r = 1
+             /\ e_read nat st' h = e_read nat st h).
 Proof. vm_compute. split; [eexists; repeat split | eexists; eexists; repeat split]. Qed.
